@@ -160,6 +160,24 @@ func report(r *vk.Run, name string, path []string, err error) {
 	r.HarnessError("%s: path %v: %v", name, path, err)
 }
 
+// replayFailed handles a failure while re-establishing an already visited state. If the
+// failure is a property violation (the code under test behaved differently on this run of
+// the same sequence - nondeterminism inside it), it is reported as such, with the prefix
+// that failed; anything else is a harness error.
+func replayFailed(r *vk.Run, cfg Config, path []string, err error, stop *atomic.Bool) {
+	var v *vk.Violation
+	if errors.As(err, &v) {
+		c := *v
+		c.Detail = "on a repeated execution of an already explored sequence: " + c.Detail
+		c.Trace = append([]string{}, path...)
+		c.Scenario = cfg.Name
+		r.Report(&c)
+		return
+	}
+	r.HarnessError("%s: %v", cfg.Name, err)
+	stop.Store(true)
+}
+
 func replay(cfg Config, path []string) (Sys, error) {
 	s, err := cfg.New()
 	if err != nil {
@@ -184,8 +202,7 @@ func expand(r *vk.Run, cfg Config, slot int, n node, mu *sync.Mutex, seen, obs m
 	vk.Inflight(slot, cfg.Name, n.path)
 	s, err := replay(cfg, n.path)
 	if err != nil {
-		r.HarnessError("%s: %v", cfg.Name, err)
-		stop.Store(true)
+		replayFailed(r, cfg, n.path, err, stop)
 		return
 	}
 	ops := s.Ops()
@@ -196,8 +213,7 @@ func expand(r *vk.Run, cfg Config, slot int, n node, mu *sync.Mutex, seen, obs m
 		if i > 0 {
 			s, err = replay(cfg, n.path)
 			if err != nil {
-				r.HarnessError("%s: %v", cfg.Name, err)
-				stop.Store(true)
+				replayFailed(r, cfg, n.path, err, stop)
 				return
 			}
 		}
